@@ -78,7 +78,8 @@ struct ConnRec {
     vt t_begin = 0, t_connected = -1, t_established = -1, t_closed = -1;
     bool tcp_ok = false; error_code connect_result;
     bool connack_sent = false; uint8_t connack_rc = 0; bool session_present = false; int connack_bpkt = -1;
-    bool established = false;          // the client's logger saw CONNACK(success) on this connection
+    bool established = false;          // the client's logger saw CONNACK(success) on this connection and the client then went on to use it
+    bool connack_ok_logged = false;    // ... saw CONNACK(success): the handshake can still fail at the authenticator's final step
     std::string closed_by, close_cause;   // "client" / "network" / "broker"
     bool faulted = false; vt t_fault = -1; uint64_t seq_fault = 0;
     size_t c2b_bytes = 0, c2b_delivered = 0, b2c_bytes = 0, b2c_read = 0;
@@ -256,6 +257,7 @@ public:
     void on_log_resolve(error_code ec, std::string host, std::string port, int n);
     void on_log_tcp(error_code ec, const asio::ip::tcp::endpoint& ep);
     void on_log_connack(uint8_t rc, bool session_present);
+    void establish_if_due(const ConnPtr& c);
     void on_log_disconnect(uint8_t rc);
 
     ConnRec& crec(const ConnPtr& c) { return h.conns[c->id]; }
